@@ -210,7 +210,7 @@ pub fn beat() {
     HEARTBEAT.fetch_add(1, Ordering::Relaxed);
 }
 
-fn process_cpu_s() -> f64 {
+pub fn process_cpu_s() -> f64 {
     #[cfg(not(miri))]
     unsafe {
         let mut ts: libc::timespec = std::mem::zeroed();
